@@ -32,4 +32,24 @@ let rtuflip inp impl =
     (m, p)
   | _ -> failwith "rtuflip: bad input"
 
-let () = Registry.register "rtuflip" rtuflip
+(* rtufliptail: head and tail of the corrupted reply both arrive before the flush
+   ends (the client keeps the line quiet for 256 character times first), so the
+   untimed model sees them as one stream: unit speed head tail valid2 op... *)
+let rtufliptail inp impl =
+  match inp with
+  | unit :: _speed :: head :: tail :: valid2 :: optoks ->
+    let cfg = { c_unit = n_of_hex unit; c_endian = BigE; c_word = HighFirst } in
+    let o = op_of_tokens optoks in
+    let c = bytes_of_hex head @ bytes_of_hex tail in
+    let r1 = client_call FRtu cfg N0 o Stall c in
+    let r2 = client_call FRtu cfg r1.cr_txn o Stall (r1.cr_rest @ bytes_of_hex valid2) in
+    let m = Printf.sprintf "%s left=%d %s" (result_str r1.cr_res) (List.length r1.cr_rest) (result_str r2.cr_res) in
+    let p = match String.split_on_char ' ' impl with
+      | [i1; _; i2] -> if (not (is_ok i1)) && is_ok i2 then "1" else "0"
+      | _ -> "0" in
+    (* the number of bytes still unread right after call 1 depends on whether the tail had arrived: compare outcomes only *)
+    let strip s = match String.split_on_char ' ' s with [a; _; b] -> a ^ " " ^ b | _ -> s in
+    if strip m = strip impl then (impl, p) else (m, p)
+  | _ -> failwith "rtufliptail: bad input"
+
+let () = Registry.register "rtuflip" rtuflip; Registry.register "rtufliptail" rtufliptail
